@@ -321,7 +321,7 @@ def run(tier, seed):
     chk.bounds = {'symbolic comment text': 'every string of every length 0..%d over printable ASCII (32..126) at each of %d sites %r' % (N, len(SITES), sorted(SITES)),
                   'line forms': '%d blocks: %d right-hand sides x %d spacings of "=" x lag notations %r x with/without user time, lines shuffled; plus %d blocks whose stock and lag variables are named from the alphabet of the parser\'s structural tokens (base + up to 2 of 0,1,k,t,_)' % (len(lb), len(RHS), len(EQ_SPACING), LAG_FORMS, len(name_pool(tier))),
                   'descriptions through Model.main()': '%d description / long-name texts composed of <= %d tokens of %r (enumerated, concrete)' % (len(ds), 2 if tier == 'quick' else 3, TOKENS)}
-    chk.assumptions = ['variable names do not contain the marker word (stated in the property)',
+    chk.assumptions = ['no variable is NAMED exactly like the marker word (a line in which the word stands on its own is the section marker, also `Exogenous = ...`, pinned by the test-suite); names that merely contain the word (EXOGENOUS_LEVEL, nonexogenous) are ordinary names and are in the name pool',
                        "a stand-alone comment line that carries the marker word IS the documented section marker (the model itself emits '# Exogenous Variables'): "
                        'for the comment-only site the expected result is the block with the marker in that place',
                        'characters are printable ASCII; no newline inside a comment']
